@@ -103,9 +103,22 @@ impl Chunk {
     pub fn read_data<R: Read + Seek>(&self, reader: &mut R) -> Result<Vec<u8>> {
         self.seek_to_data(reader)?;
 
-        let mut data = vec![0; self.header.size as usize];
-        reader.read_exact(&mut data)?;
-
-        Ok(data)
+        Ok(read_vec(reader, self.header.size as usize)?)
     }
+}
+
+/// Read exactly `len` bytes into a new buffer that grows with what the stream delivers.
+///
+/// Sizes come from chunk headers of possibly damaged files: allocating them up front lets one
+/// bad value ask for gigabytes before the read fails.
+pub(crate) fn read_vec<R: Read>(reader: &mut R, len: usize) -> std::io::Result<Vec<u8>> {
+    let mut data = Vec::new();
+    reader.by_ref().take(len as u64).read_to_end(&mut data)?;
+    if data.len() != len {
+        return Err(std::io::Error::new(
+            std::io::ErrorKind::UnexpectedEof,
+            "chunk data extends beyond the end of the file",
+        ));
+    }
+    Ok(data)
 }
